@@ -207,6 +207,43 @@ impl<'a> Gen<'a> {
     }
 }
 
+
+/// ids of the clipPath / mask / filter elements of a tree
+fn collect_defs(xs: &[X], out: &mut Vec<(String, String)>) {
+    for x in xs {
+        if let X::El { name, attrs, kids } = x {
+            if matches!(name.as_str(), "clipPath" | "mask" | "filter") {
+                if let Some((_, id)) = attrs.iter().find(|(k, _)| k == "id") { out.push((name.clone(), id.clone())); }
+            }
+            if let Some(ks) = kids { collect_defs(ks, out); }
+        }
+    }
+}
+
+fn add_refs_in(rng: &mut Rng, xs: &mut [X], defs: &[(String, String)], inside_def: bool) {
+    for x in xs.iter_mut() {
+        if let X::El { name, attrs, kids } = x {
+            let here_def = inside_def || matches!(name.as_str(), "clipPath" | "mask" | "filter" | "marker" | "pattern" | "linearGradient" | "symbol" | "defs" | "foreignObject" | "svg");
+            let target = matches!(name.as_str(), "rect" | "circle" | "ellipse" | "line" | "polyline" | "polygon" | "path" | "text" | "g" | "use" | "image");
+            // the targets of <use> stay unclipped: a clip path may contain a <use> of them, and a shape
+            // clipped by a path that uses the shape is a circular reference (an error in SVG itself)
+            let use_target = attrs.iter().any(|(k, v)| k == "id" && v.starts_with("shape"));
+            if target && !here_def && !use_target && !defs.is_empty() && rng.chance(1, 4) {
+                let (kind, id) = rng.pick(defs).clone();
+                let key = match kind.as_str() { "clipPath" => "clip-path", "mask" => "mask", _ => "filter" };
+                if !attrs.iter().any(|(k, _)| k == key) { attrs.push((key.to_string(), format!("url(#{id})"))); }
+            }
+            if let Some(ks) = kids { add_refs_in(rng, ks, defs, here_def); }
+        }
+    }
+}
+
+fn add_url_refs(rng: &mut Rng, inner: &mut Vec<X>) {
+    let mut defs = vec![];
+    collect_defs(inner, &mut defs);
+    add_refs_in(rng, inner, &defs, false);
+}
+
 #[derive(Debug, Clone, PartialEq)]
 enum T { El(String, Vec<(String, String)>, Vec<T>), Text(String) }
 
@@ -447,6 +484,9 @@ pub fn run(rep: &mut Report, tier: &str, seed: u64) -> Result<(), String> {
             X::leaf("path", &[("id", "shape4"), ("d", "M 8 -9.5 L 0 -3.5 L 3.5 5.5")]),
         ];
         for _ in 0..k { inner.push(g.node(0)); }
+        // references by url(#id) to clip paths, masks and filters that stand earlier OR later in the
+        // document (a later one makes the referring element wait for a second pass)
+        add_url_refs(g.rng, &mut inner);
         let doc = format!("<svg>{}</svg>", doc_xml(&inner));
         orc.case(&doc, true, || json!({"document": doc}));
         match judge(&doc, &inner) {
